@@ -35,6 +35,10 @@ class CollectionTooLargeException(Exception):
     pass
 
 
+class NoMethodRegisteredException(Exception):
+    pass
+
+
 class WrappedException(Exception):
     """what a host meets when a StopIteration is raised inside a function call while IT consumes a lazy result
     (yaql.convertOutputData off): yaql wraps it so that it does not end the generators on the way, and only
@@ -45,23 +49,27 @@ class Opts:
     """the options of the engine a statement belongs to, as far as the collection functions and the finaliser look at
     them (Opts of lean/Yaql/Model/SeqRun.lean): yaql.iterableDicts, convertTuplesToLists, convertSetsToLists,
     convertInputData, limitIterators (None = never reached)"""
-    __slots__ = ('id', 'tl', 'sl', 'ci', 'lim', 'co')
+    __slots__ = ('id', 'tl', 'sl', 'ci', 'lim', 'co', 'af', 'ns')
 
-    def __init__(self, id=False, tl=True, sl=True, ci=True, lim=None, co=True):
+    def __init__(self, id=False, tl=True, sl=True, ci=True, lim=None, co=True, af=True, ns=False):
         self.id, self.tl, self.sl, self.ci, self.lim, self.co = id, tl, sl, ci, lim, co
+        # the flags of yaql.create_context() the functions depend on: group_by_agg_fallback, no_sets
+        self.af, self.ns = af, ns
 
     def json(self):
-        return {'id': self.id, 'tl': self.tl, 'sl': self.sl, 'ci': self.ci, 'lim': self.lim, 'co': self.co}
+        return {'id': self.id, 'tl': self.tl, 'sl': self.sl, 'ci': self.ci, 'lim': self.lim, 'co': self.co, 'af': self.af,
+                'ns': self.ns}
 
     @staticmethod
     def of_json(j):
-        return Opts(j['id'], j['tl'], j['sl'], j['ci'], j['lim'], j.get('co', True))
+        return Opts(j['id'], j['tl'], j['sl'], j['ci'], j['lim'], j.get('co', True), j.get('af', True), j.get('ns', False))
 
     def key(self):
-        return (self.id, self.tl, self.sl, self.ci, self.lim, self.co)
+        return (self.id, self.tl, self.sl, self.ci, self.lim, self.co, self.af, self.ns)
 
     def __repr__(self):
-        return 'Opts(iterableDicts=%s, tuplesToLists=%s, setsToLists=%s, convertInput=%s, limit=%s, convertOutput=%s)' % self.key()
+        return ('Opts(iterableDicts=%s, tuplesToLists=%s, setsToLists=%s, convertInput=%s, limit=%s, convertOutput=%s; context: '
+                'group_by_agg_fallback=%s, no_sets=%s)' % self.key())
 
 
 CUR = Opts()         # the options of the evaluation in progress (set by run_ref / run_obs)
@@ -728,7 +736,7 @@ class Ref:
         # return a pair, as long as no earlier group contradicted the legacy reading.
         def gen():
             failure = None
-            fallback = True
+            fallback = CUR.af          # (create_context(group_by_agg_fallback=..))
             for k, vs in groups.items():
                 if failure is None:
                     try:
@@ -1389,17 +1397,33 @@ def coll_args(op):
     return []
 
 
+def data_root():
+    return REF.root
+
+
 def apply_op(o, op):
     """one stage applied to a run-time object.  The arguments are converted - collections pass the limiter - once an
     overload has accepted the receiver, before the function runs."""
     name = op['op']
+    if CUR.ns:
+        # a context made with create_context(no_sets=True) has no set functions: `set(..)` / `isSet(..)` are unknown
+        # functions (so is a set literal among the arguments of - < +), toSet / union / ... unknown methods, and `len`
+        # has no overload for a set
+        if name in ('set', 'isSet', 'minus', 'setCmp') or name in ('plusRight', 'plusLeft') and isinstance(op['v'], frozenset):
+            raise NoFunctionRegisteredException(name)
+        if name in ('toSet', 'union', 'intersect', 'difference', 'symmetricDifference', 'add', 'remove'):
+            raise NoMethodRegisteredException(name)
+        if name == 'len' and (isinstance(o, frozenset) or isinstance(o, View) and o.kind != 'values'):
+            raise NoMatchingMethodException(name)
+        if name in ('partialThenFull', 'zipRoot', 'joinRoot', 'concatRoot') and isinstance(data_root(), frozenset):
+            raise OOD()
     if name not in LINEAR:
         o = no_lazies(o)
     over = CUR.lim is not None and any(len(xs) > CUR.lim for xs in coll_args(op))
     try:
         r = getattr(REF, 'in_' if name == 'in' else name)(o, op)
     except (OOD, NoMatchingMethodException, NoMatchingFunctionException, NoFunctionRegisteredException,
-            AmbiguousMethodException):
+            NoMethodRegisteredException, AmbiguousMethodException):
         raise
     except Exception:
         if over:
@@ -1429,6 +1453,10 @@ def run_lazy(data, ops, binder=None, opts=None):
     the form `$` is bound to (see bind_input)"""
     global CUR
     CUR = opts or Opts()
+    if CUR.ns and any(op['op'] in ('set', 'isSet') or op['op'] == 'plusLeft' and isinstance(op['v'], frozenset) for op in ops):
+        # written in function style: the (unknown) function is looked up before its argument - the stages in front of it -
+        # is evaluated
+        raise NoFunctionRegisteredException('set')
     o = data
     if binder is not None:
         o = apply_op(o, binder)
